@@ -32,7 +32,17 @@ K_DRAWS = 8
 # ----------------------------------------------------------------------------------------------
 # stubs
 # ----------------------------------------------------------------------------------------------
+_STUBS = []
+
+
 def _stubs():
+    """the stub classes, defined once per process (defining them per call would churn the allocator and hide identity-keyed state)"""
+    if not _STUBS:
+        _STUBS.append(_make_stubs())
+    return _STUBS[0]
+
+
+def _make_stubs():
     from batchie.core import MCMCModel, VIModel, ThetaHolder
 
     class State:
@@ -176,6 +186,21 @@ def rng_observe(seed, n_chains, idx):
     ss = seed_seq_of(rng)
     return {"error": None, "entropy": int(ss.entropy), "key": [int(x) for x in ss.spawn_key],
             "draws": [int(x) for x in rng.integers(0, 2 ** 63, K_DRAWS)]}
+
+
+def other_process_draws(triples, hashseed="4242"):
+    """first draws for the triples, observed in ANOTHER interpreter process with another PYTHONHASHSEED; None if that process failed"""
+    import json as _json
+    import os as _os
+    import subprocess as _sp
+    import sys as _sys
+    code = ("import sys, json; sys.path.insert(0, %r); sys.path.insert(0, %r); from harness import c17; "
+            "print(json.dumps([c17.rng_observe(*t).get('draws') for t in %r]))") % (common.VERIF, _os.path.join(common.REPO, "src"), [list(t) for t in triples])
+    pr = _sp.run([_sys.executable, "-c", code], env=dict(_os.environ, PYTHONHASHSEED=hashseed), stdout=_sp.PIPE, stderr=_sp.PIPE, text=True, timeout=300)
+    try:
+        return _json.loads(pr.stdout.strip().split("\n")[-1]), ""
+    except Exception:  # noqa
+        return None, pr.stderr[-300:]
 
 
 def run_vi(seed, n, returned=None):
@@ -330,10 +355,23 @@ def run_calls(case):
     return obs
 
 
+def trace_positions(tr):
+    """(index of the first reset or None, index of the first step or None, number of steps, steps taken at each record)"""
+    cnt, pos = 0, []
+    for e in tr:
+        if e == 0:
+            cnt += 1
+        elif e == 1:
+            pos.append(cnt)
+    return (tr.index(2) if 2 in tr else None), (tr.index(0) if 0 in tr else None), cnt, pos
+
+
 def oracle_calls(res, case, obs):
-    """every call: the generator in effect while stepping and afterwards is the one of THIS call's (seed, chain_index)"""
-    sig = "C17:rng-not-from-this-call"
-    first_by_triple = {}
+    """every call on a reused / preset / pre-stepped model.  FAIL only for what the property states: no exception, the model is reset before
+    its first step, b + n*t steps, records after b+t, ..., b+n*t, a generator is handed over, identical triples give identical streams whatever
+    happened before in this process, another chain index of the same (seed, n_chains) gives a non-overlapping stream.  That the stream is
+    numpy's chain_index-th child of SeedSequence(seed), that it does not depend on n_chains, the exact call order of set_rng: ties."""
+    first_by_triple, by_chain = {}, {}
     for j, o in enumerate(obs):
         c = dict(case, failing_call=j)
         seed, nc, idx = o["call"]
@@ -341,37 +379,48 @@ def oracle_calls(res, case, obs):
             res.fail("sample raises on a reused / preset model", c, o["error"], "no exception", signature="C17:rng-raises")
             return False
         want_tr = [2, 3] + [0] * case["b"] + ([0] * case["t"] + [1]) * case["n"]
+        r_at, s_at, steps, pos = trace_positions(o["trace"])
+        want_pos = [case["b"] + (i + 1) * case["t"] for i in range(case["n"])]
+        if r_at is None or (s_at is not None and (r_at > s_at or 2 in o["trace"][s_at:])):
+            res.fail("the model is not reset before its first step", c, o["trace"][:12], want_tr[:12], signature="C17:reset-order")
+            return False
+        if steps != case["b"] + case["n"] * case["t"] or pos != want_pos:
+            res.fail("a reused / preset model is not advanced b + n*t steps with records after b+t, ..., b+n*t", c, {"steps": steps, "records_at": pos},
+                     {"steps": case["b"] + case["n"] * case["t"], "records_at": want_pos}, signature="C17:record-positions")
+            return False
         if o["trace"] != want_tr:
-            res.fail("reset_model, set_rng, steps/records not called in the scheduled order on a reused / preset model", c, o["trace"][:12], want_tr[:12],
-                     signature="C17:reset-order")
+            res.disagree("C17:calls-trace-order", {"case": c}, o["trace"][:12], want_tr[:12])
+        if not o["has_rng"]:
+            res.fail("model was never given a generator", c, None, "set_rng(generator)", signature="C17:rng-missing")
             return False
-        if not o["has_rng"] or o["kept_previous_generator"] or o.get("entropy") != seed or o.get("key") != [idx]:
-            res.fail("after sample() the model does not hold the generator derived from this call's (seed, chain_index)", c,
-                     {"kept_previous_generator": o["kept_previous_generator"], "entropy": o.get("entropy"), "spawn_key": o.get("key")},
-                     {"entropy": seed, "spawn_key": [idx]}, signature=sig)
-            return False
+        if o["kept_previous_generator"] or o.get("entropy") != seed or o.get("key") != [idx]:
+            res.disagree("C17:rng-derivation", {"case": c}, {"kept_previous_generator": o["kept_previous_generator"], "entropy": o.get("entropy"),
+                                                            "spawn_key": o.get("key")}, {"entropy": seed, "spawn_key": [idx]})
         if case["model"] == "real":
             if o["states"] != o["want_states"] or o["gen_state_after"] != o["want_gen_state_after"] or not o["wrapped_same"]:
-                res.fail("real model: recorded states / generator consumption differ from stepping the same object with default_rng(SeedSequence(seed, spawn_key=(chain_index,)))",
-                         c, {"states_equal": o["states"] == o["want_states"], "generator_state_equal": o["gen_state_after"] == o["want_gen_state_after"]},
-                         "identical", signature=sig)
-                return False
-            key = (seed, idx, "real", j == 0 or case["fresh_each"])
+                res.disagree("C17:real-model-stream", {"case": c}, "states / generator consumption differ from the numpy child stream", "identical")
+            key = (seed, nc, idx, "real", j == 0 or case["fresh_each"])
             summary = o["states"]
         else:
             if o["draws"] != o["want_draws"] or o["next_draws"] != o["want_next_draws"]:
-                res.fail("draws made during step() are not those of default_rng(SeedSequence(seed, spawn_key=(chain_index,)))", c,
-                         {"draws": o["draws"][:3], "next": o["next_draws"]}, {"draws": o["want_draws"][:3], "next": o["want_next_draws"]}, signature=sig)
-                return False
-            key = (seed, idx, "stub", True)
+                res.disagree("C17:stub-model-stream", {"case": c}, {"draws": o["draws"][:3]}, {"draws": o["want_draws"][:3]})
+            key = (seed, nc, idx, "stub", True)
             summary = o["draws"]
-        # identical triples => identical streams, whatever happened before in this process
-        if key[3]:
+        if key[4]:
+            # identical triples => identical streams, whatever happened before in this process
             if key in first_by_triple and first_by_triple[key] != summary:
-                res.fail("same (seed, chain_index) gives different generators", c, "differs from an earlier call with the same triple", "identical",
+                res.fail("same (seed, n_chains, chain_index) gives different generators", c, "differs from an earlier call with the same triple", "identical",
                          signature="C17:rng-not-deterministic")
                 return False
             first_by_triple.setdefault(key, summary)
+            # another chain index of the same (seed, n_chains): non-overlapping (stub: the draws themselves)
+            if case["model"] == "stub" and summary:
+                for (idx2, summ2) in by_chain.get((seed, nc), []):
+                    if idx2 != idx and set(summ2) & set(summary):
+                        res.fail("different chains / seeds share generator output", dict(c, other_chain=idx2), summary[:3], "non-overlapping streams",
+                                 signature="C17:rng-shared-stream")
+                        return False
+                by_chain.setdefault((seed, nc), []).append((idx, summary))
     return True
 
 # ----------------------------------------------------------------------------------------------
@@ -396,19 +445,21 @@ def oracle_schedule(res, case, o):
         res.fail("holder not complete after sampling", case, {"records": tr.count(1), "complete": o["complete"]}, n,
                  signature="C17:holder-incomplete")
         return
-    if tr[:2] != [2, 3] or tr.count(2) != 1 or tr.count(3) != 1:
-        res.fail("reset_model / set_rng not called exactly once before the first step", case, tr[:6], [2, 3],
-                 signature="C17:reset-order")
+    first_step = tr.index(0) if 0 in tr else len(tr)
+    if 2 not in tr[:first_step] or 2 in tr[first_step:]:
+        res.fail("the model is not reset before its first step (or is reset again later)", case, tr[:6], [2, 3], signature="C17:reset-order")
         return
+    if tr[:2] != [2, 3] or tr.count(2) != 1 or tr.count(3) != 1:       # exact call order / counts: the model's business
+        res.disagree("C17:schedule-call-order", {"case": case}, tr[:6], [2, 3])
     # the recorded state is the state right after the step (the draw of that very step)
     want_draws = [o["draws"][p - 1] for p in want]
     if o["recorded_draws"] != want_draws:
         res.fail("recorded state is not the model state right after the scheduled step", case, o["recorded_draws"], want_draws,
                  signature="C17:recorded-state")
     if not o["rng_same_at_first_step"]:
-        res.fail("generator replaced after stepping began", case, "rng changed", "set once before the first step", signature="C17:reset-order")
+        res.disagree("C17:generator-replaced", {"case": case}, "rng changed after stepping began", "set once before the first step")
     if not o.get("returned_holder", True):
-        res.fail("sample does not return the holder it filled", case, "other object", "results", signature="C17:holder-incomplete")
+        res.disagree("C17:returned-holder", {"case": case}, "other object", "results")
 
 
 def ref_draws(seed, key):
@@ -424,25 +475,32 @@ def oracle_rng_single(res, case, ob):
     if ob.get("rng", 0) is None:
         res.fail("model was never given a generator", case, None, "set_rng(generator)", signature="C17:rng-missing")
         return False
-    if ob["draws"] != ref_draws(seed, (idx,)):
-        res.fail("generator is not the chain_index-th child stream of SeedSequence(seed)", case,
-                 {"entropy": ob["entropy"], "spawn_key": ob["key"], "first_draws": ob["draws"][:3]},
-                 {"entropy": seed, "spawn_key": [idx], "first_draws": ref_draws(seed, (idx,))[:3]}, signature="C17:rng-not-chain-stream")
-        return False
+    if ob["draws"] != ref_draws(seed, (idx,)):      # WHICH stream it is belongs to the model (tie); the property's clauses are relational
+        res.disagree("C17:rng-not-chain-stream", {"case": case}, {"entropy": ob["entropy"], "spawn_key": ob["key"], "first_draws": ob["draws"][:3]},
+                     {"entropy": seed, "spawn_key": [idx], "first_draws": ref_draws(seed, (idx,))[:3]})
     return True
 
 
 def oracle_rng_pair(res, case, oa, ob):
     """case: seed_a,n_a,i_a, seed_b,n_b,i_b; equal iff (seed, idx) equal; different streams do not overlap in their first draws"""
     same = (case["seed_a"], case["i_a"]) == (case["seed_b"], case["i_b"])
+    same_family = (case["seed_a"], case["n_a"]) == (case["seed_b"], case["n_b"])
     if oa.get("error") or ob.get("error") or oa.get("draws") is None or ob.get("draws") is None:
         return
+    # stated: identical triples -> identical; another chain index of the same (seed, n_chains) -> non-overlapping.
+    # independence of n_chains and distinctness across seeds are the model's (tie).
     if same and oa["draws"] != ob["draws"]:
-        res.fail("same (seed, chain_index) gives different generators", case, [oa["draws"][:3], ob["draws"][:3]], "identical streams",
-                 signature="C17:rng-not-deterministic")
+        if same_family:
+            res.fail("same (seed, n_chains, chain_index) gives different generators", case, [oa["draws"][:3], ob["draws"][:3]], "identical streams",
+                     signature="C17:rng-not-deterministic")
+        else:
+            res.disagree("C17:rng-depends-on-n-chains", {"case": case}, [oa["draws"][:3], ob["draws"][:3]], "identical streams")
     if not same and set(oa["draws"]) & set(ob["draws"]):
-        res.fail("different chains / seeds share generator output", case, [oa["draws"][:3], ob["draws"][:3]], "different, non-overlapping streams",
-                 signature="C17:rng-shared-stream")
+        if same_family:
+            res.fail("different chains / seeds share generator output", case, [oa["draws"][:3], ob["draws"][:3]], "different, non-overlapping streams",
+                     signature="C17:rng-shared-stream")
+        else:
+            res.disagree("C17:rng-shared-across-families", {"case": case}, [oa["draws"][:3], ob["draws"][:3]], "different streams")
 
 
 def oracle_vi(res, case, o):
@@ -455,13 +513,14 @@ def oracle_vi(res, case, o):
         return
     tr = o["trace"]
     if len(tr) < 3 or tr[0] != "R" or not tr[1].startswith("G") or not tr[2].startswith("S") or tr.count("R") != 1:
-        res.fail("VI branch order is not reset, set_rng, sample", case, tr[:4], ["R", "G..", "S.."], signature="C17:vi-order")
+        res.disagree("C17:vi-order", {"case": case}, tr[:4], ["R", "G..", "S.."])      # call order inside the VI branch: the model's
+    if o["n_added"] != n or not o["complete"]:
+        res.fail("VI samples do not leave the collection complete", case, {"added": o["n_added"], "complete": o["complete"]}, n, signature="C17:vi-holder")
         return
-    if o["n_added"] != n or not o["complete"] or o["order"] != list(range(n)):
-        res.fail("VI samples not all added in order", case, {"added": o["n_added"], "order": o["order"][:10]}, n, signature="C17:vi-holder")
-        return
+    if o["order"] != list(range(n)):
+        res.disagree("C17:vi-sample-order", {"case": case}, o["order"][:10], list(range(n))[:10])
     if o["draws"] != ref_draws(seed, ()):
-        res.fail("VI generator is not default_rng(seed)", case, o["draws"][:3], ref_draws(seed, ())[:3], signature="C17:vi-rng")
+        res.disagree("C17:vi-rng", {"case": case}, (o["draws"] or [])[:3], ref_draws(seed, ())[:3])
 
 
 # ----------------------------------------------------------------------------------------------
@@ -487,6 +546,7 @@ def run(ctx, res):
         if b >= 1 and t >= 2 and n >= 2:
             res.nontrivial.add(("sched", b, t, n))
         res.count("schedule.n0" if n == 0 else "schedule.n_ge_1")
+        res.count("class.identity-cache")        # model and holder are temporaries built per call (dirty on purpose); only the result is kept
         if b % t != 0 and n >= 1:
             res.count("class.size-boundaries")                       # burn-in not a multiple of thin
         if b == 0 or n == 0 or t == 1:
@@ -511,6 +571,17 @@ def run(ctx, res):
             lines.append("schedule %d %d %d" % (n, b, t))
             expect.append("%d %s" % (0 if o["error"] is None else 1, show_list(o["trace"])))
             meta.append(case)
+    # class int-width: burn-in / thin / n straddling 127/128 and 255/256/257
+    for (b, t, n) in [(127, 2, 2), (128, 3, 1), (129, 1, 2), (255, 2, 1), (256, 1, 3), (257, 3, 2), (3, 127, 2), (2, 128, 2), (1, 129, 1), (0, 255, 1),
+                      (5, 256, 2), (1, 257, 1), (2, 1, 127), (1, 2, 128), (0, 1, 129), (3, 1, 255), (1, 1, 256), (2, 1, 257)]:
+        case = {"kind": "schedule", "n": n, "b": b, "t": t}
+        o = run_mcmc(n, b, t)
+        res.evaluations += 1
+        oracle_schedule(res, case, o)
+        res.count("class.int-width")
+        lines.append("schedule %d %d %d" % (n, b, t))
+        expect.append("%d %s" % (0 if o["error"] is None else 1, show_list(o["trace"])))
+        meta.append(case)
     # the same schedule with the progress bar switched on (train_model --progress): both loops then run through a live tqdm
     pb, pt, pn = ctx.scale((3, 3, 3), (6, 4, 4), (4, 3, 3))
     for b, t, n in itertools.product(range(pb + 1), range(1, pt + 1), range(pn + 1)):
@@ -581,6 +652,7 @@ def run(ctx, res):
         res.nontrivial.add(("calls", case["model"], case["preset"], case["fresh_each"], tuple(tuple(c) for c in case["calls"])))
         if not case["fresh_each"]:
             res.count("class.object-reuse", len(obs_c) - 1)          # later calls on the same model object, other arguments
+            res.count("class.reuse-other-seed", sum(1 for a_, b_ in zip(case["calls"], case["calls"][1:]) if (a_[0], a_[2]) != (b_[0], b_[2])))
         if case["b"] == 0 and (case.get("prestep") or not case["fresh_each"]):
             res.count("class.falsy-boundaries", len(obs_c))
             res.count("falsy.burnin0_prestepped_or_reused_model", len(obs_c))
@@ -643,33 +715,43 @@ def run(ctx, res):
         c = run_mcmc(3, 2, 2, seed=seed, n_chains=3, idx=2)
         res.evaluations += 1
         case = {"kind": "rng_run", "seed": seed}
-        if a["draws"] != b_["draws"] or a["recorded_draws"] != b_["recorded_draws"]:
-            res.fail("same (seed, chain_index) gives different generators", case, [a["draws"][:3], b_["draws"][:3]], "identical runs",
+        a2 = run_mcmc(3, 2, 2, seed=seed, n_chains=3, idx=1)
+        if a["draws"] != a2["draws"] or a["recorded_draws"] != a2["recorded_draws"]:
+            res.fail("same (seed, n_chains, chain_index) gives different generators", case, [a["draws"][:3], a2["draws"][:3]], "identical runs",
                      signature="C17:rng-not-deterministic")
+        if a["draws"] != b_["draws"] or a["recorded_draws"] != b_["recorded_draws"]:
+            res.disagree("C17:rng-depends-on-n-chains", {"case": case}, [a["draws"][:3], b_["draws"][:3]], "identical runs")
         if set(a["draws"]) & set(c["draws"]):
             res.fail("different chains / seeds share generator output", case, [a["draws"][:3], c["draws"][:3]], "different streams",
                      signature="C17:rng-shared-stream")
     # class cross-process determinism: the same triples in ANOTHER interpreter process with another PYTHONHASHSEED give the same streams
-    import json as _json
-    import os as _os
-    import subprocess as _sp
-    import sys as _sys
     triples = [(s_, nc, i_) for s_ in seeds[:3] for (nc, i_) in ((1, 0), (3, 2))]
-    code = ("import sys, json; sys.path.insert(0, %r); sys.path.insert(0, %r); from harness import c17; "
-            "print(json.dumps([c17.rng_observe(*t).get('draws') for t in %r]))") % (common.VERIF, _os.path.join(common.REPO, "src"), triples)
-    pr = _sp.run([_sys.executable, "-c", code], env=dict(_os.environ, PYTHONHASHSEED="4242"), stdout=_sp.PIPE, stderr=_sp.PIPE, text=True, timeout=300)
-    try:
-        other = _json.loads(pr.stdout.strip().split("\n")[-1])
-    except Exception:  # noqa
-        other = None
-        res.notes.append("cross-process run failed: " + pr.stderr[-300:])
-    if other is not None:
+    other, errtxt = other_process_draws(triples)
+    if other is None:
+        res.notes.append("cross-process run failed: " + errtxt)
+    else:
         for tr_, dr in zip(triples, other):
             res.evaluations += 1
             res.count("class.cross-process")
             if dr != obs[(tr_[0], tr_[1], tr_[2])].get("draws"):
-                res.fail("same (seed, chain_index) gives different generators", {"kind": "rng", "seed": tr_[0], "n_chains": tr_[1], "idx": tr_[2], "other_process": True},
+                res.fail("same (seed, n_chains, chain_index) gives different generators", {"kind": "rng", "seed": tr_[0], "n_chains": tr_[1], "idx": tr_[2]},
                          dr[:3] if dr else dr, "the stream observed in this process", signature="C17:rng-not-deterministic")
+    # class int-width: n_chains / chain_index / burn-in / thin straddling 127/128 and 255/256/257
+    for nc, idx in ((127, 126), (128, 127), (129, 128), (255, 254), (256, 255), (257, 256), (257, 128), (257, 0)):
+        for seed in (0, seeds[3]):
+            ka, kb = (seed, nc, idx), (seed, nc, idx - 1 if idx else 1)
+            for kk in (ka, kb):
+                if kk not in obs:
+                    obs[kk] = rng_observe(*kk)
+                    oracle_rng_single(res, {"kind": "rng", "seed": kk[0], "n_chains": kk[1], "idx": kk[2]}, obs[kk])
+                    lines.append("chainrng %d %d %d" % kk)
+                    expect.append("err:%s" % obs[kk]["error"] if obs[kk].get("error") else "%d %s" % (obs[kk]["entropy"], show_list(obs[kk]["key"])))
+                    meta.append({"kind": "rng", "seed": kk[0], "n_chains": kk[1], "idx": kk[2]})
+            again = rng_observe(*ka)
+            res.evaluations += 2
+            res.count("class.int-width")
+            oracle_rng_pair(res, {"kind": "rng_pair", "seed_a": ka[0], "n_a": ka[1], "i_a": ka[2], "seed_b": ka[0], "n_b": ka[1], "i_b": ka[2]}, obs[ka], again)
+            oracle_rng_pair(res, {"kind": "rng_pair", "seed_a": ka[0], "n_a": ka[1], "i_a": ka[2], "seed_b": kb[0], "n_b": kb[1], "i_b": kb[2]}, obs[ka], obs[kb])
     # refusals: tie only (error class)
     for (seed, nc, idx) in [(5, 3, 3), (5, 3, 7), (5, 1, 1), (-1, 3, 0), (-7, 2, 1), (5, 3, -1), (5, 3, -3), (5, 3, -4), (5, 0, 0), (9, 4, 3)]:
         ob = rng_observe(seed, nc, idx)
@@ -697,8 +779,7 @@ def run(ctx, res):
                 for idx in range(min(3, cmax)):
                     ob = obs.get((seed, cmax, idx))
                     if ob and ob.get("draws") and set(ob["draws"]) & set(o["draws"]):
-                        res.fail("different chains / seeds share generator output", dict(case, other_chain=idx), o["draws"][:3], "VI stream differs from chain streams",
-                                 signature="C17:rng-shared-stream")
+                        res.disagree("C17:vi-stream-is-a-chain-stream", {"case": dict(case, other_chain=idx)}, o["draws"][:3], "VI stream differs from chain streams")
     for (seed, n, r) in [(3, 2, 3), (3, 2, 0), (3, 0, 1), (3, 4, 2), (-1, 2, 2), (3, 1, 5)]:
         o = run_vi(seed, n, returned=r)
         lines.append("vi %d %d %d" % (seed, n, r))
@@ -740,12 +821,22 @@ def show_trace(tr):
 def replay(ctx, case, res):
     k = case.get("kind")
     if k == "schedule":
+        # several times in a row on fresh temporaries (and another schedule in between): state keyed by object identity shows on a later one
+        for _ in range(12):
+            oracle_schedule(res, case, run_mcmc(case["n"], case["b"], case["t"], progress=bool(case.get("progress")),
+                                                prestep=int(case.get("prestep", 0)), np_int=bool(case.get("np_int"))))
+            run_mcmc(1, 1, 1)
         oracle_schedule(res, case, run_mcmc(case["n"], case["b"], case["t"], progress=bool(case.get("progress")),
                                             prestep=int(case.get("prestep", 0)), np_int=bool(case.get("np_int"))))
     elif k == "rng":
         # twice in one process: a stream that depends on earlier calls shows on the second
-        oracle_rng_single(res, case, rng_observe(case["seed"], case["n_chains"], case["idx"]))
-        oracle_rng_single(res, case, rng_observe(case["seed"], case["n_chains"], case["idx"]))
+        t3 = (case["seed"], case["n_chains"], case["idx"])
+        d1, d2 = rng_observe(*t3), rng_observe(*t3)
+        oracle_rng_single(res, case, d1)
+        other, _e = other_process_draws([t3])
+        if d1.get("draws") != d2.get("draws") or (other is not None and other[0] != d1.get("draws")):
+            res.fail("same (seed, n_chains, chain_index) gives different generators", case, [d1.get("draws", [])[:3], d2.get("draws", [])[:3], (other or [None])[0]],
+                     "identical streams in this process and in another one", signature="C17:rng-not-deterministic")
     elif k == "calls":
         oracle_calls(res, case, run_calls(case))
     elif k == "rng_pair":
